@@ -544,4 +544,285 @@ theorem js_import_case_variant_stale :
     (step fnsAscii [] (runOps fnsAscii [] {} [.jsImport [Zqxv], .jsImport [zqxv], .jsRestart []])
       (.jsLint [zqxv, Zqxv])).2 = [true, true] := by decide
 
+/-! ## w22: joint witnesses of the hypotheses -/
+
+/-- non-vacuity of `load_save`: the theorem applied to four words (one empty, one of a space, one with
+an inner `\r`), both hypotheses together, over an old file -/
+example : loadDict fnsAscii (run (saveTrace [zqxv, [], [' '], Zqxv.reverse ++ ['\r', 'a']])
+      (.file abcq true)) = some [zqxv, [], [' '], Zqxv.reverse ++ ['\r', 'a']] :=
+  load_save fnsAscii _ (by decide) (by decide) _
+
+/-- non-vacuity of `benign_step` / `benign_runOps`: a non-empty clean file that holds the word, a
+later add of another word -/
+example : Benign fnsAscii zqxv (.add abcq []) ∧
+    Clean fnsAscii (State.user { user := .file (zqxv ++ ['\n']) false }) ∧
+    zqxv ∈ loadOrEmpty fnsAscii (State.user { user := .file (zqxv ++ ['\n']) false }) := by
+  refine ⟨⟨by decide, by decide⟩, by decide, by decide⟩
+
+example : zqxv ∈ loadOrEmpty fnsAscii
+    (runOps fnsAscii [] { user := .file (zqxv ++ ['\n']) false } [.add abcq [], .restart]).user :=
+  benign_runOps fnsAscii [] zqxv [.add abcq [], .restart] _
+    (by intro op hop
+        simp only [List.mem_cons, List.not_mem_nil, or_false] at hop
+        rcases hop with rfl | rfl <;> simp [Benign] <;> decide)
+    (by decide) (by decide)
+
+/-- non-vacuity of `add_then_accepted_partial`: the theorem applied with ALL hypotheses — a clean
+non-empty file, a curated slice that lists the word's key (capitalised, dialect admitted) and another
+word for another dialect, later operations of every benign kind -/
+example : acceptM fnsAscii (children fnsAscii [⟨colour, false⟩, ⟨Zqxv, true⟩]
+      (runOps fnsAscii [⟨colour, false⟩, ⟨Zqxv, true⟩]
+        (step fnsAscii [⟨colour, false⟩, ⟨Zqxv, true⟩] { user := .file (abcq ++ ['\n']) false }
+          (.add zqxv [])).1
+        [.restart, .add Zqxv.reverse [], .addFile 3 abcq [], .lint 1 [abcq]]) 1) zqxv = true :=
+  add_then_accepted_partial fnsAscii _ _ zqxv [] _ 1 (by decide) (by decide) (by decide)
+    (by decide)
+    (by intro op hop
+        simp only [List.mem_cons, List.not_mem_nil, or_false] at hop
+        rcases hop with rfl | rfl | rfl | rfl <;> simp [Benign] <;> decide)
+
+/-- non-vacuity of `restart_preserves`: the theorem applied to a history with restarts, a
+file-dictionary add, a repeated add and a document check — all three hypotheses together -/
+example : (∀ w, w ∈ loadOrEmpty fnsAscii (runOps fnsAscii [] {} [.add zqxv [], .restart, .add abcq [],
+      .addFile 1 Zqxv [], .restart, .add zqxv [], .lint 0 [zqxv]]).user ↔ w ∈ [zqxv, abcq, zqxv]) :=
+  (restart_preserves fnsAscii [] [.add zqxv [], .restart, .add abcq [], .addFile 1 Zqxv [], .restart,
+    .add zqxv [], .lint 0 [zqxv]] (by decide) (by decide) (by decide)).1
+
+/-- non-vacuity of `crash_after_full_write_ok`: the theorem applied (both hypotheses), old file present -/
+example : loadDict fnsAscii (crashDisk (saveTrace [zqxv, abcq, []]) ((chunks [zqxv, abcq, []]).length + 1) 5
+    (.file zqxv false)) = some [zqxv, abcq, []] :=
+  crash_after_full_write_ok fnsAscii _ (by decide) (by decide) _ 5
+
+/-- non-vacuity of `file_dict_isolated` / `file_dict_accepted_partial`: the theorems applied; the file
+dictionary already holds a word, the curated slice lists the added word's key -/
+example : acceptM fnsAscii (children fnsAscii [⟨Zqxv, true⟩]
+      (step fnsAscii [⟨Zqxv, true⟩] { files := [(1, .file (abcq ++ ['\n']) false)] }
+        (.addFile 1 zqxv [])).1 1) zqxv = true :=
+  file_dict_accepted_partial fnsAscii _ _ 1 zqxv [] (by decide) (by decide) (by decide) (by decide)
+example : acceptM fnsAscii (children fnsAscii []
+      (step fnsAscii [] { files := [(1, .file (abcq ++ ['\n']) false)] } (.addFile 1 zqxv [])).1 2) zqxv
+    = acceptM fnsAscii (children fnsAscii [] { files := [(1, .file (abcq ++ ['\n']) false)] } 2) zqxv :=
+  file_dict_isolated fnsAscii [] _ 1 2 zqxv [] (by decide) zqxv
+
+/-- non-vacuity of `rebuild_decision_sound(_file)`: the theorems applied, all four hypotheses
+(two shuffled enumerations, a non-empty word, the injective stand-in hash) -/
+example : mergedEq hashInj [.curated, .words [abcq, zqxv], .words [colour]]
+      [.curated, .words [Zqxv.reverse, zqxv, abcq], .words []] = false :=
+  (rebuild_decision_sound hashInj [zqxv, abcq] [abcq, zqxv] [Zqxv.reverse, zqxv, abcq] Zqxv.reverse
+    (.words [colour]) (.words []) (List.isPerm_iff.mp (by decide)) (List.isPerm_iff.mp (by decide))
+    (by decide) (by decide)).1
+example : mergedEq hashInj [.curated, .words [colour], .words [abcq, zqxv]]
+      [.curated, .words [], .words [Zqxv.reverse, zqxv, abcq]] = false :=
+  rebuild_decision_sound_file hashInj [zqxv, abcq] [abcq, zqxv] [Zqxv.reverse, zqxv, abcq] Zqxv.reverse
+    (.words [colour]) (.words []) (List.isPerm_iff.mp (by decide)) (List.isPerm_iff.mp (by decide))
+    (by decide) (by decide)
+
+/-- non-vacuity of `js_import_accepted_partial`: the theorem applied to a linter that already holds a
+word, the curated slice listing the new word's key -/
+example : acceptM fnsAscii [[⟨Zqxv, true⟩, ⟨colour, false⟩],
+    entries ((⟨[abcq], [abcq]⟩ : Js).importWords fnsAscii [zqxv]).lint] zqxv = true :=
+  js_import_accepted_partial fnsAscii _ ⟨[abcq], [abcq]⟩ zqxv (by decide) (by decide) (by decide)
+    (by decide)
+
+/-! ## w22: a dictionary file on disk; file-dictionary words from then on -/
+
+/-- **A dictionary file on disk** (the property's third way of adding a word; no command involved):
+whatever state the server is in, if the user dictionary file — hand-written or saved — reloads to a
+list containing the normalized word `w`, the next check of ANY document accepts `w`, under the
+same proviso on the curated dictionary as `add_then_accepted_partial`. -/
+theorem disk_word_accepted_partial (f : Fns) (cur : List Entry) (s : State) (w : Word) (name : Nat)
+    (hw : w ∈ loadOrEmpty f s.user) (hn : f.normalize w = w)
+    (hcur : ∀ e, lookup f cur w = some e → e.dialectOk = true) :
+    (step f cur s (.lint name [w])).2 = [true] := by
+  simp only [step, List.map_cons, List.map_nil, children]
+  rw [acceptM_of_user f cur _ _ (uniqueKeys_loadOrEmpty f _) w hw hn hcur]
+
+/-- non-vacuity of `disk_word_accepted_partial`: a hand-edited file with CRLF line ends and a
+duplicate key; the later spelling is the one that counts -/
+example : (step fnsAscii [⟨colour, false⟩]
+      { user := .file (Zqxv ++ ['\r', '\n'] ++ abcq ++ ['\n'] ++ zqxv ++ ['\n']) false }
+      (.lint 7 [zqxv])).2 = [true] :=
+  disk_word_accepted_partial fnsAscii _ _ zqxv 7 (by decide) (by decide) (by decide)
+
+/-! ### a file-dictionary word is accepted from then on -/
+
+theorem benignFile_step (f : Fns) (cur : List Entry) (n : Nat) (w : Word) (s : State) (op : Op)
+    (hb : ∀ w' ord, op = .addFile n w' ord → WellFormedWord w' ∧ (key f w' = key f w → w' = w))
+    (hc : Clean f (fileDisk s.files n))
+    (hm : w ∈ loadOrEmpty f (fileDisk s.files n)) :
+    Clean f (fileDisk (step f cur s op).1.files n) ∧
+      w ∈ loadOrEmpty f (fileDisk (step f cur s op).1.files n) := by
+  cases op with
+  | addFile n' w' ord =>
+    by_cases hnn : n' = n
+    · subst hnn
+      obtain ⟨hw', hk⟩ := hb w' ord rfl
+      obtain ⟨hl, hp, _, hwf⟩ := add_reload f (fileDisk s.files n') w' ord hc hw'
+      have he := loadOrEmpty_of_loadDict hl
+      simp only [step, Clean, fileDisk_cons_self, he]
+      refine ⟨hwf, hp.mem_iff.mpr ?_⟩
+      by_cases h : key f w = key f w'
+      · rw [← hk h.symm]; exact mem_insert_self f w' _
+      · exact mem_insert_of_ne f w' w _ hm h
+    · simp only [step, fileDisk_cons_ne _ _ _ _ (Ne.symm hnn)]
+      exact ⟨hc, hm⟩
+  | add _ _ => exact ⟨hc, hm⟩
+  | crashAdd _ _ _ _ => exact ⟨hc, hm⟩
+  | restart => exact ⟨hc, hm⟩
+  | lint _ _ => exact ⟨hc, hm⟩
+  | jsImport _ => exact ⟨hc, hm⟩
+  | jsLint _ => exact ⟨hc, hm⟩
+  | jsRestart _ => exact ⟨hc, hm⟩
+
+theorem benignFile_runOps (f : Fns) (cur : List Entry) (n : Nat) (w : Word) (rest : List Op) :
+    ∀ s : State, (∀ w' ord, Op.addFile n w' ord ∈ rest →
+        WellFormedWord w' ∧ (key f w' = key f w → w' = w)) → Clean f (fileDisk s.files n) →
+      w ∈ loadOrEmpty f (fileDisk s.files n) →
+      w ∈ loadOrEmpty f (fileDisk (runOps f cur s rest).files n) := by
+  induction rest with
+  | nil => intro s _ _ hm; exact hm
+  | cons op rest ih =>
+    intro s hb hc hm
+    have ⟨hc', hm'⟩ := benignFile_step f cur n w s op
+      (fun w' ord e => hb w' ord (by simp [e])) hc hm
+    exact ih _ (fun w' ord ho => hb w' ord (List.mem_cons_of_mem _ ho)) hc' hm'
+
+/-- **A file-dictionary word is accepted from then on (partial).** After `HarperAddToFileDict w` for a
+document whose dictionary file is `n` (clean), `w` is not reported in that document immediately and
+after any later sequence of operations — user-dictionary adds, CRASHED user-dictionary saves,
+restarts, checks, adds to other file dictionaries, and adds to the same file dictionary that are
+well-formed and do not replace `w` by a case variant — under provisos (1), (2) of
+`add_then_accepted_partial`. (`file_dict_accepted_partial` is the case `rest = []`.) -/
+theorem file_dict_then_accepted_partial (f : Fns) (cur : List Entry) (s : State) (n : Nat) (w : Word)
+    (ord : List Word) (rest : List Op) (hclean : Clean f (fileDisk s.files n))
+    (hw : WellFormedWord w) (hn : f.normalize w = w)
+    (hcur : ∀ e, lookup f cur w = some e → e.dialectOk = true)
+    (hrest : ∀ w' ord', Op.addFile n w' ord' ∈ rest →
+      WellFormedWord w' ∧ (key f w' = key f w → w' = w)) :
+    acceptM f (children f cur (runOps f cur (step f cur s (.addFile n w ord)).1 rest) n) w = true := by
+  obtain ⟨hl, hp, _, hwf⟩ := add_reload f (fileDisk s.files n) w ord hclean hw
+  have he := loadOrEmpty_of_loadDict hl
+  have h0 : Clean f (fileDisk (step f cur s (.addFile n w ord)).1.files n) ∧
+      w ∈ loadOrEmpty f (fileDisk (step f cur s (.addFile n w ord)).1.files n) := by
+    simp only [step, Clean, fileDisk_cons_self, he]
+    exact ⟨hwf, hp.mem_iff.mpr (mem_insert_self f w _)⟩
+  have hm := benignFile_runOps f cur n w rest _ hrest h0.1 h0.2
+  simp only [children]
+  exact acceptM_of_file f cur _ _ (uniqueKeys_loadOrEmpty f _) w hm hn hcur
+    (fun e h => lookup_entries_dialectOk f _ w e h)
+
+/-- non-vacuity of `file_dict_then_accepted_partial`: later a user add of a case variant, a crashed
+user save, an add to another file, an add to the same file, a restart -/
+example : acceptM fnsAscii (children fnsAscii [⟨colour, false⟩]
+      (runOps fnsAscii [⟨colour, false⟩]
+        (step fnsAscii [⟨colour, false⟩] { files := [(1, .file (abcq ++ ['\n']) false)] }
+          (.addFile 1 zqxv [])).1
+        [.add Zqxv [], .crashAdd zqé [] 1 0, .addFile 2 Zqxv [], .addFile 1 zqé [], .restart]) 1)
+      zqxv = true :=
+  file_dict_then_accepted_partial fnsAscii _ _ 1 zqxv [] _ (by decide) (by decide) (by decide)
+    (by decide)
+    (by intro w' ord' hop
+        simp only [List.mem_cons, List.not_mem_nil, or_false, reduceCtorEq, false_or, or_false,
+          Op.addFile.injEq] at hop
+        rcases hop with ⟨h, _, _⟩ | ⟨_, rfl, _⟩
+        · cases h
+        · decide)
+
+/-! ## w22: every crash point of a save -/
+
+theorem takeBytes_prefix (cs : List Char) :
+    ∀ j, (takeBytes cs j).1 <+: cs ∧ ((takeBytes cs j).2 = true → (takeBytes cs j).1.length < cs.length) := by
+  induction cs with
+  | nil => intro j; simp [takeBytes]
+  | cons c cs ih =>
+    intro j
+    simp only [takeBytes]
+    split
+    · simp
+    · split
+      · have := ih (j - utf8Len c)
+        exact ⟨(List.prefix_cons_inj c).mpr this.1, fun h => by simpa using this.2 h⟩
+      · simp
+
+theorem crashDisk_cons_succ (x : Sys) (tr : List Sys) (n j : Nat) (d : Disk) :
+    crashDisk (x :: tr) (n + 1) j d = crashDisk tr n j (exec d x) := by
+  simp [crashDisk, run]
+
+theorem crashDisk_writes (cs : List (List Char)) :
+    ∀ (a : List Char) (n j : Nat), ∃ p torn,
+      crashDisk (cs.map Sys.write ++ [Sys.close]) n j (.file a false) = .file (a ++ p) torn ∧
+      p <+: cs.flatten ∧ (torn = true → p ≠ cs.flatten) := by
+  induction cs with
+  | nil =>
+    intro a n j
+    refine ⟨[], false, ?_, List.nil_prefix, by simp⟩
+    cases n with
+    | zero => simp [crashDisk, run]
+    | succ n => simp [crashDisk, run, exec]
+  | cons c cs ih =>
+    intro a n j
+    cases n with
+    | zero =>
+      have ht := takeBytes_prefix c j
+      refine ⟨(takeBytes c j).1, (takeBytes c j).2, by simp [crashDisk, run], ?_, ?_⟩
+      · exact ht.1.trans (by simp)
+      · intro h he
+        have := ht.2 h
+        rw [he] at this
+        simp at this
+        omega
+    | succ n =>
+      obtain ⟨p, torn, h1, h2, h3⟩ := ih (a ++ c) n j
+      refine ⟨c ++ p, torn, ?_, ?_, ?_⟩
+      · rw [List.map_cons, List.cons_append, crashDisk_cons_succ]
+        simpa [exec] using h1
+      · simpa using (List.prefix_append_right_inj c).mpr h2
+      · intro h he
+        exact h3 h (by simpa using he)
+
+/-- **Every crash point of a save.** Whatever crash point `(k, j)` — `k` completed syscalls of the
+traced save, `j` bytes of the next `write` — either nothing has happened yet (`k = 0`: the file is
+untouched), or the file holds a character-prefix `p` of the new contents `word ⏎ word ⏎ …`
+(followed, if `torn`, by an incomplete UTF-8 sequence, and then `p` is a proper prefix): the OLD
+contents are gone from the first syscall on. So a crashed save never leaves "the old dictionary"
+except before the open, and leaves "the new dictionary" only once all bytes are out; in between, the
+words lost are all those of the old dictionary that lie beyond the cut — not "at most the word being
+added". The three named crash points and the counter-histories above are instances. -/
+theorem crash_any_point_prefix (ws : List Word) (old : Disk) (k j : Nat) :
+    (k = 0 ∧ crashDisk (saveTrace ws) k j old = old) ∨
+    (0 < k ∧ ∃ p torn, crashDisk (saveTrace ws) k j old = .file p torn ∧ p <+: writeLog ws ∧
+      (torn = true → p ≠ writeLog ws)) := by
+  cases k with
+  | zero => left; simp [crashDisk, saveTrace, run]
+  | succ n =>
+    right
+    refine ⟨Nat.succ_pos n, ?_⟩
+    obtain ⟨p, torn, h1, h2, h3⟩ := crashDisk_writes (chunks ws) [] n j
+    rw [chunks_flatten] at h2 h3
+    refine ⟨p, torn, ?_, h2, h3⟩
+    rw [saveTrace, crashDisk_cons_succ]
+    simpa [exec] using h1
+
+/-- what reloads after a crash at ANY point of the save of `ws` comes from a prefix of the new
+file: every reloaded word is a line of that prefix (general form of `crash_loses_all`, … ) -/
+theorem crash_any_point_reload (f : Fns) (ws : List Word) (old : Disk) (k j : Nat) (hk : 0 < k) :
+    ∃ p, p <+: writeLog ws ∧
+      (loadOrEmpty f (crashDisk (saveTrace ws) k j old) = [] ∨
+       loadOrEmpty f (crashDisk (saveTrace ws) k j old) = loadWords f p) := by
+  rcases crash_any_point_prefix ws old k j with ⟨h0, _⟩ | ⟨_, p, torn, h1, h2, _⟩
+  · omega
+  · refine ⟨p, h2, ?_⟩
+    rw [h1]
+    cases torn
+    · right; rfl
+    · left; rfl
+
+/-- the instances: the crash points of `crash_loses_all`, `crash_loses_old_word_and_invents_one`
+and `crash_torn_character_loses_all` are prefixes `[]`, `zqxv⏎ab`, `zqxv⏎abcq⏎zq`+torn of
+`zqxv⏎abcq⏎zqé⏎` -/
+example : crashDisk (saveTrace [zqxv, abcq, zqé]) 1 7 (.file (zqxv ++ ['\n'] ++ abcq ++ ['\n']) false)
+      = .file ['z', 'q', 'x', 'v', '\n', 'a', 'b'] false ∧
+    crashDisk (saveTrace [zqxv, abcq, zqé]) 1 13 (.file (zqxv ++ ['\n'] ++ abcq ++ ['\n']) false)
+      = .file ['z', 'q', 'x', 'v', '\n', 'a', 'b', 'c', 'q', '\n', 'z', 'q'] true := by decide
+
 end Harper.C07
